@@ -176,7 +176,7 @@ def probe_load(p, rng=None, nrows=3):
         rng.shuffle(cands)
     rows, seen, tried = [], set(), 0
     for s, e, tok in cands:
-        if tried >= p.get("max_try", 60) or len(rows) >= nrows:
+        if tried >= p.get("max_try", 60) or len(rows) >= p.get("nrows", nrows):
             break
         new = _perturb(tok, rng, p.get("digit"))
         if new is None:
@@ -262,7 +262,7 @@ def _gro():
             "    1WATER  OW1    1   0.126   1.624   1.679  0.1227 -0.0580  0.0434\n"
             "    1WATER  HW2    2   0.190   1.661   1.747  0.8085  0.3191 -0.7791\n"
             "    1WATER  HW3    3   0.177   1.568   1.613 -0.9045 -2.6469  1.3180\n"
-            "   1.82060   2.82060   3.82060\n")
+            "   1.82060   2.82060   3.82060   0.00000   0.00000   0.51234   0.00000   0.61234   0.71234\n")
 
 
 def _poscar():
@@ -401,9 +401,9 @@ def load_probes():
     add("chgcar", "cellvecs", "chgcar", g_cell, file="CHGCAR.oxygen", name="CHGCAR.p", span=(2, 5))
     add("locpot", "cellvecs", "locpot", g_cell, file="LOCPOT.oxygen", name="LOCPOT.p", span=(2, 5))
     add("locpot", "cube.data", "locpot", lambda d: d.cube.data, file="LOCPOT.oxygen", name="LOCPOT.p", span=(10, 14))
-    add("gromacs", "atcoords", "gromacs", g_coords, text=_gro, name="p.gro", span=(2, 5), f32=True)
-    add("gromacs", "velocities", "gromacs", lambda d: d.extra["velocities"], text=_gro, name="p.gro", span=(2, 5), f32=True)
-    add("gromacs", "cellvecs", "gromacs", g_cell, text=_gro, name="p.gro", span=(5, 6), f32=True)
+    add("gromacs", "atcoords", "gromacs", g_coords, text=_gro, name="p.gro", span=(2, 5))
+    add("gromacs", "velocities", "gromacs", lambda d: d.extra["velocities"], text=_gro, name="p.gro", span=(2, 5))
+    add("gromacs", "cellvecs", "gromacs", g_cell, text=_gro, name="p.gro", span=(5, 6), nrows=9)
     add("gromacs", "time", "gromacs", lambda d: [d.extra["time"]], text=_gro, name="p.gro", span=(0, 1))
     add("cube", "atcoords", "cube", g_coords, file="cubegen_h2o_5points.cube", span=(6, 9))
     add("cube", "cube.origin", "cube", lambda d: d.cube.origin, file="cubegen_h2o_5points.cube", span=(2, 3))
